@@ -299,7 +299,9 @@ def case_spawn(ch):
             'tsan': False, 'imported': ch.below(3) == 0, 'depth': ch.pick((0, 0, 1, 2)),
             'decoys': ch.pick((0, 0, 0, 1, 2, 3, 4, 5)),
             # every n-th thread creation made by thread-spawn fails (EAGAIN: the host has run out of threads)
-            'fail_every': ch.pick((0, 0, 0, 2, 3, 5))}
+            'fail_every': ch.pick((0, 0, 0, 2, 3, 5)),
+            # resource limits of the host process a thread implementation may consult: an unlimited stack size (ulimit -s unlimited)
+            'stack_unlimited': ch.below(4) == 0}
 
 
 def run_spawn(case):
@@ -310,7 +312,14 @@ def run_spawn(case):
     try:
         if case.get('fail_every'):
             case = dict(case, depth=0)
-        r = subprocess.run([exe, str(case['T']), str(case['K']), str(case.get('depth', 0)), str(case.get('fail_every', 0))], stdout=subprocess.PIPE, stderr=subprocess.PIPE, env=env, timeout=120)
+        pre = None
+        if case.get('stack_unlimited'):
+            import resource
+
+            def pre():
+                resource.setrlimit(resource.RLIMIT_STACK, (resource.RLIM_INFINITY, resource.RLIM_INFINITY))
+        r = subprocess.run([exe, str(case['T']), str(case['K']), str(case.get('depth', 0)), str(case.get('fail_every', 0))], stdout=subprocess.PIPE, stderr=subprocess.PIPE, env=env, timeout=120,
+                           preexec_fn=pre)
     except subprocess.TimeoutExpired:
         return 'timeout', 'thread-spawn harness did not finish within 120 s'
     err = r.stderr.decode(errors='replace')
@@ -385,6 +394,8 @@ def classify(case):
             out.append('spawn_with_lookalike_export_names')
         if case.get('fail_every'):
             out.append('spawn_with_failing_thread_creation')
+        if case.get('stack_unlimited'):
+            out.append('spawn_under_unlimited_stack_limit')
         if not case['export']:
             out.append('spawn_missing_export')
         if case.get('imported'):
